@@ -258,6 +258,7 @@ func (w *Worker) runPath(prefix []int32, concrete []uint64) (st *State, status, 
 		}()
 		st.call(ex.Entry, nil, nil)
 	}()
+	st.killThreads()
 	if status == "blocked" || status == "fatal" || status == "exit" {
 		if !ex.AllowStatus[status] {
 			func() {
